@@ -26,6 +26,7 @@ import math
 import os
 import struct
 import sys
+import time
 import traceback
 
 import numpy as np
@@ -678,11 +679,13 @@ def enumerate_cases(tier):
                     if nulls != "first":
                         continue
                 data.append((dt, rows, nulls))
-    per = len(opts) if tier == "thorough" else 6
+    per = len(opts) if tier == "thorough" else 4
     seen = set()
     out = []
-    for i, (dt, rows, nulls) in enumerate(data):
-        for j in range(per):
+    # round-major order: every data case gets its first tuple before any gets its second, so that a run
+    # cut short by the time budget loses breadth of options, never a dtype / row count / null pattern
+    for j in range(per):
+        for i, (dt, rows, nulls) in enumerate(data):
             o = opts[(i * per + j + (i * per) // len(opts)) % len(opts)] if tier != "thorough" else opts[j]
             f = {"dtype": dt, "rows": rows, "nulls": nulls}
             f.update(o)
@@ -742,7 +745,7 @@ def run_bounded(ctx):
     single, multi = enumerate_cases(ctx.tier)
     rule = (f"dtypes {len(DTYPES)} x rows {ROWS_THOROUGH if ctx.tier == 'thorough' else ROWS_QUICK} x null patterns "
             f"{NULLS} (where the dtype can be missing) = data cases; each with "
-            f"{'every tuple' if ctx.tier == 'thorough' else '6 tuples (round-robin)'} of a pairwise covering array "
+            f"{'every tuple' if ctx.tier == 'thorough' else '4 tuples (round-robin)'} of a pairwise covering array "
             f"({len(pairwise(OPTION_AXES))} tuples) over {({k: len(v) for k, v in OPTION_AXES.items()})}; plus "
             f"{len(multi)} multi-column frames (pairwise over per-column compression dict / has_nulls list / stats "
             f"list / scheme / pages / version).  BOUND: <= 8193 rows, <= 5 columns, <= 4 row groups, 1-3 pages per "
@@ -750,10 +753,13 @@ def run_bounded(ctx):
             f" (values: and rows > 0).")
     for g in (G_STRUCT, G_ENCST, G_VALUES, G_RAISE):
         ctx.bounded_group(g, rule=rule if g == G_STRUCT else "same enumeration as c02.structure")
-    cases = single + multi
+    cases = multi + single
     workers = min(14, os.cpu_count() or 2)
+    budget = 45.0 if ctx.tier == "quick" else 13 * 60.0      # seconds; checked between batches
+    t0 = time.time()
     engine = []
     raised = 0
+    judged = 0
     notes = {}
     page_mismatch = 0
     stale = {}
@@ -764,41 +770,56 @@ def run_bounded(ctx):
         rec = ctx.match_known_signature(group, f)
         if rec is not None:
             stale[rec["id"]] = stale.get(rec["id"], 0) + 1
+
+    def judge(res):
+        nonlocal raised, page_mismatch
+        f = res["features"]
+        if res.get("engine"):
+            engine.append((f, res["engine"]))
+            return
+        if res["raised"]:
+            raised += 1
+            with Case(ctx, G_RAISE, f, nontrivial=False, contract=CONTRACT[G_RAISE]):
+                pass
+            notes.setdefault("write raised: " + res["raised"][:90], []).append(f)
+            return
+        for n in set(res["notes"]):
+            key = n.split(":", 1)[1] if n.startswith("page at") else n.split("(")[0]
+            key = "".join(ch for ch in key if not ch.isdigit()).strip()
+            notes.setdefault("reader leniency used: " + key, []).append(None)
+        if f.get("pages", 1) > 1 and f["rows"] >= 64 and res["parsed"] and res["pages_seen"] < 2:
+            page_mismatch += 1
+        with Case(ctx, G_STRUCT, f, snippet=make_snippet(f, G_STRUCT), contract=CONTRACT[G_STRUCT]) as c:
+            if res["structure"]:
+                c.fail(" | ".join(res["structure"][:3]))
+            passed(G_STRUCT, f)
+        if res["has_chunks"]:
+            with Case(ctx, G_ENCST, f, snippet=make_snippet(f, G_ENCST), contract=CONTRACT[G_ENCST]) as c:
+                if res["encstats_pt"]:
+                    c.fail(res["encstats_pt"][0])
+                passed(G_ENCST, f)
+        if res["parsed"]:
+            with Case(ctx, G_VALUES, f, snippet=make_snippet(f, G_VALUES), nontrivial=f["rows"] > 0,
+                      contract=CONTRACT[G_VALUES]) as c:
+                if res["values"]:
+                    c.fail(" | ".join(res["values"][:3]))
+                passed(G_VALUES, f)
+
+    batch = workers * 24
     with ProcessPoolExecutor(max_workers=workers) as ex:
-        for res in ex.map(run_case, cases, chunksize=8):
-            f = res["features"]
-            if res.get("engine"):
-                engine.append((f, res["engine"]))
-                continue
-            if res["raised"]:
-                raised += 1
-                with Case(ctx, G_RAISE, f, nontrivial=False, contract=CONTRACT[G_RAISE]):
-                    pass
-                notes.setdefault("write raised: " + res["raised"][:90], []).append(f)
-                continue
-            for n in res["notes"]:
-                key = n.split(":")[0] if n.startswith("page at") else n.split("(")[0]
-                notes.setdefault("reader leniency used: " + key.strip(), []).append(None)
-            if f.get("pages", 1) > 1 and f["rows"] >= 64 and res["pages_seen"] < 2:
-                page_mismatch += 1
-            with Case(ctx, G_STRUCT, f, snippet=make_snippet(f, G_STRUCT), contract=CONTRACT[G_STRUCT]) as c:
-                if res["structure"]:
-                    c.fail(" | ".join(res["structure"][:3]))
-                passed(G_STRUCT, f)
-            if res["has_chunks"]:
-                with Case(ctx, G_ENCST, f, snippet=make_snippet(f, G_ENCST), contract=CONTRACT[G_ENCST]) as c:
-                    if res["encstats_pt"]:
-                        c.fail(res["encstats_pt"][0])
-                    passed(G_ENCST, f)
-            if res["parsed"]:
-                with Case(ctx, G_VALUES, f, snippet=make_snippet(f, G_VALUES), nontrivial=f["rows"] > 0,
-                          contract=CONTRACT[G_VALUES]) as c:
-                    if res["values"]:
-                        c.fail(" | ".join(res["values"][:3]))
-                    passed(G_VALUES, f)
+        for start in range(0, len(cases), batch):
+            if time.time() - t0 > budget:
+                msg = (f"c02: time budget of {budget:.0f}s reached after {judged} of {len(cases)} cases; "
+                       f"the remaining cases (later option tuples of each data case) were not run")
+                ctx.note(msg)
+                print("NOTE " + msg, flush=True)
+                break
+            for res in ex.map(run_case, cases[start:start + batch], chunksize=6):
+                judged += 1
+                judge(res)
     if engine:
         raise RuntimeError(f"{len(engine)} cases could not be judged (engine failure); first: {engine[0]}")
-    ctx.note(f"c02: {len(cases)} writes, {raised} raised (nothing to judge)")
+    ctx.note(f"c02: {judged} writes, {raised} raised (nothing to judge)")
     for k, v in sorted(notes.items()):
         ctx.note(f"c02: {k} [{len(v)} cases]")
     for fid, n in sorted(stale.items()):
